@@ -8,7 +8,7 @@ Oracles (DESIGN.md section 5, C11):
            DFTKernel POL mode (each factor carries the constant, i.e. the constant enters squared - SpinRBFEvaluator
            does the same).  Value AND gradient, pre-filled res/dres buffers (evaluators ADD), 1..8 features, 1..4500
            samples (KernelEvaluator chunks by 2000), 1..200 control points.  Tolerance 1e-12 of the function scale
-           (measured floor 1.3e-15).
+           (measured maximum 4.2e-14 over seeds 0-4, both tiers).
  dftkernel DFTKernel.map(plan) -> MappedDFTKernel(X0T) versus alpha . DFTKernel.get_k[_and_deriv](X0T) pushed through
            the same baseline (SEP / NPOL / POL, nspin 1 and 2).
  subset    SubsetRBF kernels (get_rbf_kernel): index extraction from index lists and slices (open/closed stop, step),
@@ -16,7 +16,7 @@ Oracles (DESIGN.md section 5, C11):
            MappedDFTKernel (full-width dres buffer).
  spline    real map_tools path (get_mapped_gp_evaluator_simple / _additive / _linear, arbf_exchange.mapping_plan):
            (a) the mapped SplineSetEvaluator interpolates: at spline-grid nodes it equals the kernel sum to rounding
-           (1e-10; floor 2e-15) at every density; (b) on random points inside the feature bounds the error decreases
+           (1e-10; measured maximum 4.6e-14) at every density; (b) on random points inside the feature bounds the error decreases
            with the grid density (natural cubic splines: h^2 at the boundary, h^4 in the interior; gradient one order
            less) and is below calibrated bounds at the default density 8; (c) SplineSetEvaluator accumulates hand-made
            multilinear terms (reproduced exactly by cubic splines) exactly, value and gradient.
@@ -43,31 +43,31 @@ RULE = ("cases = batches of random draws per evaluator family: C evaluators {RBF
 MIN_NONTRIVIAL = {"quick": 300, "thorough": 15000}
 ASSUMPTIONS = ["evaluation and control points lie inside the feature bounds handed to map_tools",
                "spline accuracy is a convergence statement decided on sampled points only; error bounds at the default "
-               "density are x4-15 above the maximum measured on the unchanged tree (seeds 0-4, both tiers), convergence "
-               "ratios x1.6-3 above it; the sharp spline oracle is exactness at the grid nodes (1e-10, floor 1.5e-14)",
+               "density are x4-13 above the maximum measured on the unchanged tree (seeds 0-4, both tiers), convergence "
+               "ratios x1.5-3 above it; the sharp spline oracle is exactness at the grid nodes (1e-10, measured maximum 4.6e-14)",
                "SubsetRBF evaluators are called with control points restricted to the kernel's columns (the only "
                "memory-safe convention of RBFEvaluator); the full-width interface of MappedDFTKernel is a separate oracle"]
 REQUIRED_CALLS = ["libmcider.evaluate_se_kernel", "libmcider.evaluate_se_kernel_antisym",
                   "libmcider.evaluate_se_kernel_spin"]
 
-TOL_EXACT = 1e-12      # C evaluator vs kernel sum, relative to function scale (measured maximum 3.6e-14 over 5e4 draws)
+TOL_EXACT = 1e-12      # C evaluator vs kernel sum, relative to function scale (measured maximum 4.2e-14 over 6e4 draws)
 TOL_STRUCT = 1e-13     # pure-numpy re-evaluation of a per-dimension factor (floor 8e-16)
-TOL_ADDITIVE = 1e-11   # additive kernels use Newton-Girard sums (cancellation): measured maximum 5.7e-13
-TOL_NODE = 1e-10       # spline value at grid nodes (measured maximum 1.5e-14)
+TOL_ADDITIVE = 1e-10   # additive kernels use Newton-Girard sums (cancellation): measured maximum 1.0e-12
+TOL_NODE = 1e-10       # spline value at grid nodes (measured maximum 4.6e-14)
 # spline, full domain, default density 8, relative to max|f| / max|grad f| on the sample (measured maxima in comments)
-BOUND_VAL_D8 = 3e-2    # measured <= 3.9e-3
-BOUND_GRAD_D8 = 0.5    # measured <= 0.12  (natural boundary condition: O(h) gradient error at the domain edge)
-BOUND_VAL_INT_D8 = 1e-2   # central half of every bound interval, default density: measured <= 6.4e-4
+BOUND_VAL_D8 = 5e-2    # measured <= 4.6e-3
+BOUND_GRAD_D8 = 0.5    # measured <= 0.13  (natural boundary condition: O(h) gradient error at the domain edge)
+BOUND_VAL_INT_D8 = 1e-2   # central half of every bound interval, default density: measured <= 7.4e-4
 BOUND_GRAD_INT_D8 = 1e-1  # measured <= 1.1e-2
 # convergence, expressed as err(2d)/err(d) <= tol while err(d) is above the floor
-RATIO_VAL_FULL = 0.6   # measured <= 0.37 (h^2 at the boundary -> 0.25)
-RATIO_GRAD_FULL = 0.8  # measured <= 0.52 (h^1 -> 0.5)
-RATIO_VAL_INT = 0.25   # interior (central half of every bound interval): measured <= 0.083 (h^4 -> 0.0625)
-RATIO_GRAD_INT = 0.4   # measured <= 0.145 (h^3 -> 0.125)
+RATIO_VAL_FULL = 0.7   # measured <= 0.39 over 3.5e4 density pairs (h^2 at the boundary -> 0.25)
+RATIO_GRAD_FULL = 0.85 # measured <= 0.565 (h^1 -> 0.5); a mapping that converges to another function gives 1
+RATIO_VAL_INT = 0.25   # interior (central half of every bound interval): measured <= 0.082 (h^4 -> 0.0625)
+RATIO_GRAD_INT = 0.4   # measured <= 0.153 (h^3 -> 0.125)
 FLOOR_FULL = 1e-7
 FLOOR_INT = 1e-8
-BOUND_VAL_INT_TOP = 1e-5   # interior value error at the highest density reached (>= 32): measured <= 7.3e-8
-BOUND_GRAD_INT_TOP = 3e-4  # measured <= 8.1e-6
+BOUND_VAL_INT_TOP = 1e-5   # interior value error at the highest density reached (>= 32): measured <= 2.1e-7
+BOUND_GRAD_INT_TOP = 3e-4  # measured <= 1.0e-5
 
 
 @contextlib.contextmanager
@@ -95,6 +95,7 @@ CX_FAMILIES = ["rbf-full", "rbf-bare", "rbf-slice", "rbf-allcols", "antisym", "s
 CX_EDGE = ["rbf-subset-list", "rbf-slice-openstop-step", "rbf-slice-openstart", "rbf-subset-fullwidth"]
 SP_FAMILIES = ["rbf-simple", "subrbf-simple", "arbf-o1", "arbf-o2", "arbf-o3", "prod-srbf-arbf", "addrq", "addllrbf",
                "linear", "plan-arbf-exchange", "splineset-exact", "prod-srbf-addrq"]
+SP_EDGE = ["linear-nctrl"]  # fails on the pinned tree (AssertionError), kept apart from the clean linear case
 ST_FAMILIES = ["DiffARBF", "DiffARBFV2", "DiffAddRQ", "DiffAddLLRBF", "SubsetARBF", "SubsetAddRQ", "SubsetAddLLRBF",
                "k0map:DiffARBFV2", "k0map:DiffAddRQ", "k0map:DiffAddLLRBF"]
 
@@ -129,6 +130,10 @@ def gen_cases(tier, seed):
             cases.append({"id": "sp-%s-%d" % (fam, rep), "kind": "sp", "family": fam,
                           "ndraw": nsp if fam not in ("linear", "splineset-exact", "prod-srbf-addrq") else 3 * nsp,
                           "seed": seed, "idx": idx, "_threads": 2, "_weight": 3.0 if heavy else 1.5, "_timeout": 2400})
+    for fam in SP_EDGE:
+        idx += 1
+        cases.append({"id": "sp-%s" % fam, "kind": "sp", "family": fam, "ndraw": 4 if quick else 12, "seed": seed,
+                      "idx": idx, "_threads": 2, "_weight": 0.2, "_timeout": 600})
     return cases
 
 
@@ -833,8 +838,8 @@ def _node_points(ev, N1, lo, hi, rng, n):
 def _run_sp(case, rec, rng):
     fam = case["family"]
     for d in range(case["ndraw"]):
-        if fam == "linear":
-            _sp_linear(rec, rng)
+        if fam in ("linear", "linear-nctrl"):
+            _sp_linear(rec, rng, general=fam == "linear-nctrl")
         elif fam == "splineset-exact":
             _sp_splineset_exact(rec, rng)
         elif fam == "plan-arbf-exchange":
@@ -999,7 +1004,7 @@ def _sp_plan(rec, rng):
                         "value_err": _err(f1, f0, fs), "grad_err": _err(g1, g0, gs), "scale": list(map(float, ev.scale))})
 
 
-def _sp_linear(rec, rng):
+def _sp_linear(rec, rng, general=False):
     from ciderpress.dft import xc_evaluator as xe
     from ciderpress.models.kernel_plans import map_tools as mt
     from ciderpress.models.kernels import DiffLinearKernel
@@ -1017,6 +1022,10 @@ def _sp_linear(rec, rng):
     rec.check("linear_value", _err(f1, f0, fs), TOL_EXACT, mechanism="map_tools.linear:value")
     rec.check("linear_gradient", _err(d1, d0, ds), TOL_EXACT, mechanism="map_tools.linear:gradient")
     rec.nontrivial("linear|%d|%d|%.6g" % (N1, X.shape[0], alpha[0]))
+    if rec.sample is None:
+        rec.set_sample({"family": "linear", "nfeat": N1, "value_err": _err(f1, f0, fs), "grad_err": _err(d1, d0, ds)})
+    if not general:
+        return
     # general number of control points (f = sum_a (x . x_a) alpha_a is defined for any nctrl)
     nctrl = int(rng.integers(N1 + 1, N1 + 30))
     ctrl2 = rng.normal(size=(nctrl, N1))
@@ -1031,8 +1040,6 @@ def _sp_linear(rec, rng):
     except AssertionError as e:
         rec.require("linear_general_nctrl_accepted", False, mechanism="map_tools.linear:nctrl!=nfeat",
                     detail={"nfeat": N1, "nctrl": nctrl, "error": "AssertionError %s" % e})
-    if rec.sample is None:
-        rec.set_sample({"family": "linear", "nfeat": N1, "value_err": _err(f1, f0, fs), "grad_err": _err(d1, d0, ds)})
 
 
 def _sp_unsupported(rec, rng):
